@@ -1822,7 +1822,10 @@ def concatenate(
     n_dt_segs = [len(pulse.dt) for pulse in pulses]
     seg_idx = [0] + list(accumulate(n_dt_segs))
     for i, (pulse, idx) in enumerate(zip(pulses, n_opers_present)):
-        control_matrix_atomic[i, idx] = pulse.get_control_matrix(omega, show_progressbar)
+        # Rows of the pulse's control matrix in the order of its identifiers in the new pulse
+        order = np.argsort([n_oper_mapping[i][identifier]
+                            for identifier in pulse.n_oper_identifiers])
+        control_matrix_atomic[i, idx] = pulse.get_control_matrix(omega, show_progressbar)[order]
         if not idx.all():
             # calculate the control matrix for the noise operators that are
             # not present in pulse
